@@ -90,7 +90,8 @@ PROPS = {
         'fewer than 2^15 ordered messages of a stream outstanding (SSN half-space; known finding D15); fewer than 2^31 TSNs/MIDs outstanding',
         'composition (Props/C01net.lean, Model/NetSys.lean): reliable ordered streams only (openS ordered, relType 0, no unreg; no FORWARD-TSN / reset operation in NetSys); fewer than 2^31 chunks written in all; '
         'D15 window stated on the run (messages written at most 2^31 / 2^15 ahead of messages read at every step); DATA only: the selection oracle of the sender model is message-contiguous and per-stream FIFO (SelContig; '
-        'proved of the real pending queue in Props/C17, a hypothesis here); toWire assumes a chunk carries the byte slice [i*mp, i*mp+len) of the written payload (the copy in packetize is observed by the e2e content hashes only)']},
+        'derived in Props/C01sel.lean from FIFO selection SelFifo - every gather takes the oldest pending chunk - which C17_ordered_only_fifo proves of the pending-queue model for ordered-only traffic; '
+        'that the sender model\'s selection oracle is the real queue\'s answer is checked on the logged selections by the [C01,C17] predicate, not proved); toWire assumes a chunk carries the byte slice [i*mp, i*mp+len) of the written payload (the copy in packetize is observed by the e2e content hashes only)']},
     'C11': {'jobs': [REASM, ARCV], 'assumptions': [
         'sum of len(userData) over all chunks ever pushed < 2^63 (uint64 counter / int conversion in subtractNumBytes)',
         'association level: credit formula over the streams REGISTERED in the association table (deviation D13: unread bytes of a reset stream are not counted); '
